@@ -70,6 +70,7 @@ class Src:
 
     def __init__(self):
         self.decls = []
+        self.var_trees = []      # calculations held in variables, in declaration (= evaluation) order
 
     def text(self, t):
         k = t[0]
@@ -86,6 +87,8 @@ class Src:
             body = self.text(inner) if inner[0] != "s" else f"var(--a{inner[1]})"
             name = f"$v{len(self.decls)}"
             self.decls.append(f"{name}: {body};")
+            if inner[0] == "c":
+                self.var_trees.append(inner)
             return name
         if k == "c":
             return t[1] + "(" + ", ".join(self.text(a) for a in t[2]) + ")"
@@ -180,30 +183,31 @@ class Gen:
         return ("v", ("s", r.randrange(NATOMS), False))
 
     def other(self, fam):
-        return self.rng.choice([f for f in FAMILY if f != fam])
+        fams = [f for f in FAMILY if f != fam and (f != "num" or self.rng.random() < 0.3)]
+        return self.rng.choice(fams or ["num"])
 
     def expr(self, fam, depth):
         """an operand of family `fam` (what + - min max clamp need to agree on)."""
         r = self.rng
-        if depth <= 0 or r.random() < 0.22:
-            return self.leaf(fam if r.random() > 0.05 else self.other(fam))
+        if depth <= 0 or r.random() < 0.3:
+            return self.leaf(fam if r.random() > 0.03 else self.other(fam))
         x = r.random()
         if x < 0.40:
             op = r.choice("+-")
-            t = ("o", op, self.expr(fam, depth - 1), self.expr(fam if r.random() > 0.06 else self.other(fam), depth - 1))
+            t = ("o", op, self.expr(fam, depth - 1), self.expr(fam if r.random() > 0.04 else self.other(fam), depth - 1))
         elif x < 0.58:
             if r.random() < 0.5:
                 t = ("o", "*", self.expr(fam, depth - 1), self.expr("num", depth - 1))
             else:
                 t = ("o", "*", self.expr("num", depth - 1), self.expr(fam, depth - 1))
-            if r.random() < 0.05:
+            if r.random() < 0.03:
                 t = ("o", "*", self.expr(fam, depth - 1), self.expr(fam, depth - 1))
         elif x < 0.74:
             y = r.random()
             if fam == "num" and y < 0.3:
                 f2 = r.choice(["len", "ang", "time"])
                 t = ("o", "/", self.expr(f2, depth - 1), self.expr(f2, depth - 1))
-            elif y < 0.93:
+            elif y < 0.96:
                 t = ("o", "/", self.expr(fam, depth - 1), self.expr("num", depth - 1))
             else:
                 t = ("o", "/", self.expr("num", depth - 1), self.expr(fam, depth - 1))
@@ -223,7 +227,7 @@ class Gen:
         if name == "clamp":
             n = 3 if r.random() < 0.97 else r.choice([1, 2])
             return ("c", "clamp", [self.expr(fam, depth) for _ in range(n)])
-        n = r.choice([1, 2, 2, 3, 3, 4])
+        n = r.choice([1, 2, 2, 2, 3, 3, 4])
         return ("c", name, [self.expr(fam, depth) for _ in range(n)])
 
     def top(self, depth):
@@ -442,14 +446,30 @@ def observe(pool, cases, batch=150):
     return res
 
 
-_CHECK = re.compile(r"ok tie=(\d) val=(\S+) defined=(\d+) reprint=(\d) specsame=(\d) model= (.*?) impl= (.*)$")
+_CHECK = re.compile(r"ok tie=(\d) val=(\S+) defined=(\d+) reprint=(\d) specsame=(\d) spec=(\S+) model= (.*?) impl= (.*)$")
+
+
+def source_of(t):
+    s = Src()
+    body = s.text(t)
+    return "x{%sv: %s}" % ("".join(d + " " for d in s.decls), body), s.var_trees
 
 
 def evaluate(ck, pool, trees, envs, label):
-    """tie + direct oracle on `trees`; returns list of failure payloads (each with .tags)."""
+    """tie + direct oracle on `trees`; returns list of failure payloads (each with `tags`)."""
     cases = list(enumerate(trees))
-    # the model first: predicted errors are compiled one by one (an error aborts a whole stylesheet)
-    mouts = driver(["calc simp now " + tree_enc(t) for _, t in cases])
+    srcs = [source_of(t) for t in trees]
+    # The model first.  Calculations held in variables are evaluated by grass at their declaration, i.e.
+    # before the main expression: the expected outcome is the first failing declaration, else the main one.
+    lines, span = [], []
+    for (i, t), (_, vts) in zip(cases, srcs):
+        span.append((len(lines), len(vts)))
+        lines += ["calc simp now " + tree_enc(v) for v in vts] + ["calc simp now " + tree_enc(t)]
+    raw = driver(lines)
+    mouts = []
+    for off, nv in span:
+        bad = [r for r in raw[off:off + nv] if not r.startswith("ok ")]
+        mouts.append(bad[0] if bad else raw[off + nv])
     oks = [(i, t) for (i, t), m in zip(cases, mouts) if m.startswith("ok ")]
     errs = [(i, t) for (i, t), m in zip(cases, mouts) if not m.startswith("ok ")]
     obs = observe(pool, oks)
@@ -457,34 +477,26 @@ def evaluate(ck, pool, trees, envs, label):
     lines, meta = [], []
     for (i, t), m in zip(cases, mouts):
         o = obs[i]
-        if o[0] == "ok":
-            if "Infinity" in o[1] or "NaN" in o[1]:
-                lines.append("ping")
-                meta.append("nonfinite")
-                continue
+        if o[0] == "ok" and not ("Infinity" in o[1] or "NaN" in o[1]):
             try:
                 toks = lex(o[1])
+                lines.append(f"calc check {envs} ; {tree_enc(t)} ; " + " ".join(toks))
+                meta.append("check")
             except Unreadable as e:
                 lines.append("ping")
                 meta.append("unreadable:" + str(e))
-                continue
-            lines.append(f"calc check {envs} ; {tree_enc(t)} ; " + " ".join(toks))
-            meta.append("check")
         else:
-            lines.append("calc simp spec " + tree_enc(t))
-            meta.append("simp")
+            lines.append("ping")
+            meta.append("nonfinite" if o[0] == "ok" else "none")
     douts = driver(lines)
     failures = []
-    for (i, t), m, o, how, d in zip(cases, mouts, obs_list(obs, cases), meta, douts):
-        s2 = Src()
-        body = s2.text(t)
-        src = "x{%sv: %s}" % ("".join(d + " " for d in s2.decls), body)
+    for (i, t), (src, _), m, how, d in zip(cases, srcs, mouts, meta, douts):
+        o = obs[i]
         enc = tree_enc(t)
         if m == "bad-op" or d == "bad-op":
             ck.cov["unsupported_dropped"] += 1
             continue
-        has_op = " o " in " " + enc
-        ck.count(enc, nontrivial=has_op or enc.count(" c ") >= 1)
+        ck.count(enc, nontrivial=(" o " in " " + enc) or enc.count("c ") >= 2)
         ck.hist(f"{label}size:{min(size(t), 16)}")
         ck.hist("top:" + t[1])
         base = {"source": src, "tree": enc, "model": m, "impl": list(o)[:3]}
@@ -499,21 +511,23 @@ def evaluate(ck, pool, trees, envs, label):
             continue
         if m == "panic":
             disagree(ck, base)
+            continue
+        # ---- division by zero: the real code goes on with +-Infinity / NaN (IEEE), the model stops; the
+        #      source denotes no finite quantity, so there is nothing to preserve.  Only "no panic" applies.
+        if m == "err non-finite":
+            ck.hist("model:non-finite(outside the model):impl:" + ("nonfinite-text" if how == "nonfinite" else o[0]))
+            continue
         # ---- error cases by class -------------------------------------------------------------
         if o[0] == "err":
             ck.hist("impl:err:" + o[1].split(":")[0])
-            if m == "err non-finite":
-                ck.hist("model:non-finite")
-                continue                       # the real code went on with Infinity/NaN and then failed: allowed
             if m != "err " + o[1]:
                 disagree(ck, base)
             continue
         # ---- the implementation produced a value -----------------------------------------------
         if how == "nonfinite":
             ck.hist("impl:nonfinite")
-            if m != "err non-finite":
-                disagree(ck, base)
-                failures.append(dict(base, why="non-finite output for an expression without a zero divisor", tags=[]))
+            disagree(ck, base)
+            failures.append(dict(base, why="non-finite output for an expression without a zero divisor", tags=[]))
             continue
         if how.startswith("unreadable"):
             ck.hist("impl:unreadable")
@@ -526,64 +540,48 @@ def evaluate(ck, pool, trees, envs, label):
             disagree(ck, base)
             failures.append(dict(base, why="output not parsed by the calc grammar: " + d[:80], tags=[]))
             continue
-        tie, val, defined, reprint, specsame, model, impl = mm.groups()
+        tie, val, defined, reprint, specsame, spec, model, impl = mm.groups()
         base["driver"] = d[:400]
-        coerced = model.startswith("ok 1")
-        reduced = model.startswith("ok ") and model.split()[2] == "n"
         ck.hist("impl:ok:" + ("number" if impl.startswith("n ") else "calculation"))
-        ck.hist("coerced" if coerced else "in-scope")
         ck.hist(f"envs-defined:{defined}")
         if tie != "1":
             disagree(ck, base)
         if reprint != "1":
             failures.append(dict(base, why="print/re-parse of the source changed its value", tags=[]))
         if not model.startswith("ok "):
-            # the model rejects (or stops at a zero divisor) but the implementation printed a value
-            if model == "err non-finite":
-                failures.append(dict(base, why="finite output for a division by zero", tags=[]))
-            continue
-        # (c) direct: value preserved under every environment (outside Sass's unitless coercion in min/max)
+            continue                     # main expression rejected by the model but accepted by grass: tie already counted
+        coerced = model.startswith("ok 1")
+        ck.hist("coerced(outside CSS semantics)" if coerced else "in-scope")
+        # known deviations are attributed only when grass equals the as-found model and differs from the spec
         tags = []
         if specsame != "1" and tie == "1":
-            sp = spec_of(ck, enc)
-            if sp.startswith("err incompatible"):
+            if spec == "incompatible":
                 tags.append("D41-unitless-accepted")
             elif clamp_inverted(t):
                 tags.append("D40-clamp-max-below-min")
+        # (c) direct: value preserved under every environment (outside Sass's unitless coercion in min/max)
         if not coerced and val != "holds":
             failures.append(dict(base, why="value not preserved: " + val, tags=[x for x in tags if x.startswith("D40")]))
         elif "D41-unitless-accepted" in tags:
+            ck.hist("D41-unitless-accepted")
             failures.append(dict(base, why="provably incompatible operands (unitless with a unit) accepted", tags=tags))
         # (c') model-independent: known convertible units => the plain number exact arithmetic gives
         try:
             v, g = plain_value(t)
-            ck.hist("plain-number-oracle")
-            ok_plain = False
-            mnum = re.match(r"n (-?\d+)(?:/(\d+))? (\S+)$", impl)
-            if mnum:
-                x = F(int(mnum.group(1)), int(mnum.group(2) or 1))
-                u = "" if mnum.group(3) == "-" else mnum.group(3)
-                if group(u) == g and abs(x * canon(u) - v) <= (F(6, 10 ** 11) + abs(x) / 10 ** 12) * canon(u):
-                    ok_plain = True
-            if not ok_plain:
-                failures.append(dict(base, why=f"known units: expected the plain number {float(v)} (canonical unit of {g})",
-                                     tags=["D40-clamp-max-below-min"] if clamp_inverted(t) else []))
         except NotPlain:
-            pass
+            continue
+        ck.hist("plain-number-oracle")
+        ok_plain = False
+        mnum = re.match(r"n (-?\d+)(?:/(\d+))? (\S+)$", impl)
+        if mnum:
+            x = F(int(mnum.group(1)), int(mnum.group(2) or 1))
+            u = "" if mnum.group(3) == "-" else mnum.group(3)
+            if group(u) == g and abs(x * canon(u) - v) <= (F(6, 10 ** 11) + abs(x) / 10 ** 12) * canon(u):
+                ok_plain = True
+        if not ok_plain:
+            failures.append(dict(base, why=f"known units: expected the plain number {float(v)} (canonical unit of {g})",
+                                 tags=["D40-clamp-max-below-min"] if clamp_inverted(t) else []))
     return failures
-
-
-def obs_list(obs, cases):
-    return [obs[i] for i, _ in cases]
-
-
-_SPEC_CACHE = {}
-
-
-def spec_of(ck, enc):
-    if enc not in _SPEC_CACHE:
-        _SPEC_CACHE[enc] = driver(["calc simp spec " + enc])[0]
-    return _SPEC_CACHE[enc]
 
 
 def disagree(ck, base):
